@@ -4,6 +4,7 @@ from math import factorial
 
 from ..sengine import SHarness, register, shard_fn, sat_and_count, _solver, _check
 from ..alg import PyAlg, enc_rows, model_to_list
+from .. import bigpoints
 from ..core import Run, run_shards
 from .. import gen
 from ..gen import Vars, mk_graph, formula_class
@@ -687,6 +688,7 @@ def run(tier):
     run.assumptions = ['variable meaning is taken from the names reported by all_variable_labels()', 'z3 is sound']
     for h in HARNESSES:
         items = [(h.name, p) for p in h.points(tier)]
+        items += [(h.name, p) for p in bigpoints.big_points(h.name, tier)]
         items += gen.with_networkx_inputs(items)
         part = run_shards(shard_fn, items)
         if part.counts.get('selftest_mutants', 0) and not part.counts.get('selftest_distinguished', 0):
